@@ -2,7 +2,9 @@ package props
 
 import (
 	"go/ast"
+	"go/constant"
 	"go/types"
+	"strconv"
 	"strings"
 
 	"verifcheck/an"
@@ -16,7 +18,7 @@ func init() {
 			"NOT decided: escaping/unicode/float text round trip (value-level), what the points writer does with accepted rows.",
 		Assumptions: commonAssumptions,
 		Technique:   "static analysis: conversion lint over typed expressions, dominance of validity guards, error-flow chain checks on go/cfg, must-precede cuts",
-		Rules:       "C06.R1 R2 R3 R4 R5 R6",
+		Rules:       "C06.R1 R2 R3 R4 R5 R6 R7 R8",
 	}
 }
 
@@ -274,6 +276,8 @@ func c06(c *an.Ctx) {
 			}
 		}
 	}
+	c06unescapeSet(c)
+	c06noWriteAfterParseError(c)
 	// ---------------------------------------------------------------- R6
 	{
 		// A row whose fields clash with the measurement's schema is written without the clashing fields
@@ -294,6 +298,128 @@ func c06(c *an.Ctx) {
 		r.AddSites(n)
 		r.Floor(100, "functions of package coordinator")
 	}
+}
+
+// c06unescapeSet — C06.R7.  The line scanner (nextUnescapedChar) decides by backslash PARITY
+// whether a delimiter is escaped, i.e. it treats `\\\\` as an escaped backslash.  The unescaper must
+// agree: the characters it strips a backslash from are space, comma, equals AND the backslash
+// itself; otherwise `path=C:\\\\dir` is stored with both backslashes and lands in another series.
+func c06unescapeSet(c *an.Ctx) {
+	const P = "lib/util/lifted/vm/protoparser/influx"
+	r := c.Rule("C06.R7", "K-TABLES", P+":unescapeTagValue — the unescaped set is {space, comma, equals, backslash}, matching the scanner's backslash-parity rule")
+	src := c.P.FuncSpec(P + ":unescapeTagValue")
+	if src == nil {
+		r.Unresolved(P + ":unescapeTagValue")
+		return
+	}
+	info := src.Pkg.TypesInfo
+	have := map[byte]bool{}
+	// (a) byte constants compared in the function
+	ast.Inspect(src.Decl.Body, func(m ast.Node) bool {
+		be, ok := m.(*ast.BinaryExpr)
+		if !ok || (be.Op.String() != "==" && be.Op.String() != "!=") {
+			return true
+		}
+		for _, e := range []ast.Expr{be.X, be.Y} {
+			if tv, ok := info.Types[e]; ok && tv.Value != nil && tv.Value.Kind() == constant.Int {
+				if v, exact := constant.Int64Val(tv.Value); exact && v > 0 && v < 128 {
+					have[byte(v)] = true
+				}
+			}
+		}
+		return true
+	})
+	// (b) the from-strings of a strings.NewReplacer the function uses (directly or through a package variable)
+	collectReplacer := func(n ast.Node) {
+		ast.Inspect(n, func(m ast.Node) bool {
+			ce, ok := m.(*ast.CallExpr)
+			if !ok {
+				return true
+			}
+			if fn := an.Callee(info, ce); fn == nil || fn.Pkg() == nil || fn.Pkg().Path() != "strings" || fn.Name() != "NewReplacer" {
+				return true
+			}
+			for i := 0; i+1 < len(ce.Args); i += 2 {
+				if tv, ok := info.Types[ce.Args[i]]; ok && tv.Value != nil && tv.Value.Kind() == constant.String {
+					from := constant.StringVal(tv.Value)
+					if len(from) == 2 && from[0] == '\\' {
+						have[from[1]] = true
+					}
+				}
+			}
+			return true
+		})
+	}
+	collectReplacer(src.Decl.Body)
+	ast.Inspect(src.Decl.Body, func(m ast.Node) bool {
+		id, ok := m.(*ast.Ident)
+		if !ok {
+			return true
+		}
+		if v, ok := info.Uses[id].(*types.Var); ok && v.Pkg() != nil && v.Parent() == v.Pkg().Scope() {
+			for _, file := range src.Pkg.Syntax {
+				for _, d := range file.Decls {
+					gd, ok := d.(*ast.GenDecl)
+					if !ok {
+						continue
+					}
+					for _, sp := range gd.Specs {
+						if vs, ok := sp.(*ast.ValueSpec); ok {
+							for i, nm := range vs.Names {
+								if info.Defs[nm] == v && i < len(vs.Values) {
+									collectReplacer(vs.Values[i])
+								}
+							}
+						}
+					}
+				}
+			}
+		}
+		return true
+	})
+	r.AddSites(len(have))
+	for _, ch := range []byte{' ', ',', '=', '\\'} {
+		if !have[ch] {
+			r.Fail("unescapeTagValue: "+strconv.QuoteRune(rune(ch))+" not unescaped", c.P.Pos(src.Decl.Pos()), "unescapeTagValue does not strip the backslash in front of %s: the scanner counts backslash parity, so an escaped %s is stored with its backslash", strconv.QuoteRune(rune(ch)), strconv.QuoteRune(rune(ch)))
+		}
+	}
+}
+
+// c06noWriteAfterParseError — C06.R8.  The parser hands a block to the write callback either with
+// an error (some line was invalid) or with rows that were normalised after parsing: timestamps
+// scaled by the request's precision, missing timestamps filled in, rows validated.  On the error
+// path the callback is called BEFORE that normalisation, so rows of a failed block must never be
+// written: they would be stored with raw second/millisecond numbers as nanoseconds.
+func c06noWriteAfterParseError(c *an.Ctx) {
+	const H = "lib/util/lifted/influx/httpd"
+	r := c.Rule("C06.R8", "K-GUARD", H+":(*Handler).serveWrite — the write callback hands rows to the points writer only when the block parsed without error")
+	f := fn(r, H+":Handler.serveWrite")
+	if f == nil {
+		return
+	}
+	wm := an.MNode("PointsWriter.RetryWritePointRows(…)", func(g *an.Fn, m ast.Node) bool {
+		ce, ok := m.(*ast.CallExpr)
+		if !ok {
+			return false
+		}
+		sel, ok := ce.Fun.(*ast.SelectorExpr)
+		if !ok || !strings.Contains(sel.Sel.Name, "WritePointRows") {
+			return false
+		}
+		inner, ok := ast.Unparen(sel.X).(*ast.SelectorExpr)
+		return ok && inner.Sel.Name == "PointsWriter"
+	})
+	lit := f.LitContaining(wm)
+	if lit == nil {
+		r.Fail(f.Name+": callback", c.P.Pos(f.Body.Pos()), "the write callback no longer hands the rows to the points writer")
+		return
+	}
+	g := f.Lit(lit, "writeCallback")
+	if len(g.Params) < 3 {
+		r.Fail(f.Name+": callback signature", c.P.Pos(lit.Pos()), "the write callback no longer receives the parse error")
+		return
+	}
+	g.Guarded(r, g.Find(wm), "rows are written only if the block's parse error is nil", an.AtomLike(`^(nil==p2|p2==nil)$`, true))
 }
 
 // staleIndexDeletes finds, inside `for _, i := range positions`, an in-place deletion
